@@ -22,6 +22,7 @@ import traceback
 from concurrent.futures import ProcessPoolExecutor, as_completed
 
 VERIF_DIR = os.path.dirname(os.path.dirname(os.path.abspath(__file__)))
+OUT_DIR = os.environ.get("VERIF_OUT", VERIF_DIR)     # evidence/ and replays/ go here (mutant self-test redirects it)
 REPO = os.environ.get("VERIF_REPO", "/repo")
 
 
@@ -336,7 +337,7 @@ def shrink_int(v, lo=0):
 # replay (fresh interpreter)
 # --------------------------------------------------------------------------
 def write_replay(pid, plan, violation, extra=None):
-    d = os.path.join(VERIF_DIR, "replays", pid)
+    d = os.path.join(OUT_DIR, "replays", pid)
     os.makedirs(d, exist_ok=True)
     doc = dict(plan)
     doc["violation"] = violation
@@ -507,7 +508,7 @@ def run_batch(modname, pid, tier, master, stages, workers, level="exploration",
         out_lines.append("HARNESS-ERROR property=%s %d plan(s) failed inside the harness; first: index=%s %s" % (
             pid, len(total["harness"]), h.get("index"), h.get("detail", "")[-800:]))
         if h.get("plan") is not None:
-            d = os.path.join(VERIF_DIR, "replays", pid)
+            d = os.path.join(OUT_DIR, "replays", pid)
             os.makedirs(d, exist_ok=True)
             with open(os.path.join(d, "harness_error_%s.json" % h.get("seed")), "w") as f:
                 json.dump(h["plan"], f, indent=1, sort_keys=True)
@@ -553,8 +554,8 @@ def run_batch(modname, pid, tier, master, stages, workers, level="exploration",
         "assumptions": assumptions or [], "wall_s": round(wall, 3), "violations": violations_reported,
     }
     if cov["distinct_nontrivial"] >= 2 and cov["samples"]:
-        os.makedirs(os.path.join(VERIF_DIR, "evidence"), exist_ok=True)
-        with open(os.path.join(VERIF_DIR, "evidence", pid + ".json"), "w") as f:
+        os.makedirs(os.path.join(OUT_DIR, "evidence"), exist_ok=True)
+        with open(os.path.join(OUT_DIR, "evidence", pid + ".json"), "w") as f:
             json.dump(ev, f, indent=1, sort_keys=True, default=str)
             f.write("\n")
     else:
